@@ -198,6 +198,24 @@ pub fn emit_asm(a: &Args, out: &mut Out) {
             }
         }
     }
+    if a.get_u64("bound", 1) == 1 {
+        for (k, back) in [("LD", false), ("LEA", true), ("ST", false), ("BR", true), ("JSR", false), ("JSR", true), ("LDI", true), (".fill", false)] {
+            for gap in [0i64, 1, 5, 200] {
+                run += 1;
+                // the reference sits just below x8000 and the label just above it (or the other way round)
+                let mut p = vec![GStmt::new(".orig", 0x8000 - 2 - if back { 0 } else { gap }, 0, 0, 0)];
+                let user = if k == ".fill" { let mut g = GStmt::new(".fill", 0, 0, 0, 2); g.lbl = "Far".into(); g } else { GStmt::lab(k, if k == "BR" { 7 } else if k == "JSR" { 0 } else { 3 }, "far") };
+                let target = GStmt::new("ADD", 1, 1, 1, 0).with_label("Far");
+                if back { p.push(target.clone()); p.push(GStmt::new("NOT", 2, 2, 0, 0)); if gap > 0 { p.push(GStmt::new(".blkw", gap, 0, 0, 0)); } p.push(user.clone()); }
+                else { p.push(user.clone()); if gap > 0 { p.push(GStmt::new(".blkw", gap, 0, 0, 0)); } p.push(GStmt::new("NOT", 2, 2, 0, 0)); p.push(target.clone()); }
+                p.push(GStmt::new(".end", 0, 0, 0, 0));
+                let r = asmgen::render(&mut rng, &p, &Style::plain());
+                let dbg = chance(&mut rng, 50);
+                let (rec, _) = asm_record(&mut rng, run, &r.text, dbg, Some(&p), true);
+                out.emit(rec);
+            }
+        }
+    }
     for _ in 0..n {
         run += 1;
         let cfg = cfg_for(&mut rng, a.thorough(), faults);
